@@ -78,7 +78,6 @@ Definition dec_check (e : env) (c : dec_case) : bool :=
   match decode e sid (unhex h), obs with
   | DOk v _, OVal o => val_sim (canon v) o
   | DErr, OErr => true
-  | DHuge, OErr => true          (* a count larger than the bytes left: the implementation fails later, after allocating *)
   | DPanic _, OPanic => true
   | _, _ => false
   end.
@@ -90,14 +89,13 @@ Definition reuse_check (e : env) (c : reuse_case) : bool :=
   match decode_into e sid prior (unhex h), obs with
   | DOk v _, OVal o => val_sim (canon v) o
   | DErr, OErr => true
-  | DHuge, OErr => true
   | DPanic _, OPanic => true
   | _, _ => false
   end.
 
 (* the implementation died (out of memory) or allocated more than its bound while decoding these bytes: the
-   model must attribute that to the known site, a LIST count larger than the bytes left (DHuge) - a death or
-   over-allocation the model does not predict is a mismatch, not an instance of the known finding *)
+   repaired model has no outcome that explains that (DHuge is never produced any more, see Props/C05), so such a
+   case is always a mismatch between model and code *)
 Definition huge_check (e : env) (sid : nat) (h : hexs) : bool :=
   match decode e sid (unhex h) with DHuge => true | _ => false end.
 
